@@ -149,6 +149,7 @@ func script(seed int64, idx int) {
 	// current height) must have been forwarded once the watcher is quiescent; re-checked after further
 	// quiescent periods before it is reported.
 	reported := map[int]bool{}
+	floorEnd := map[int]int64{} // events held by a wall-clock floor that ends during the script: event id -> end (ms)
 	stepLiveness := func(where string) {
 		for attempt := 0; attempt < 4; attempt++ {
 			evs := w.H.AllEvents()
@@ -162,6 +163,9 @@ func script(seed int64, idx int) {
 			w.Sim.WithLock(func() { height = w.Sim.Height })
 			var missing []*alphsim.Ev
 			for _, e := range expected {
+				if fe, ok := floorEnd[e.ID]; ok && time.Now().UnixMilli() < fe+300 {
+					continue // still held by the wall-clock floor
+				}
 				if got[e.ID] == 0 && !reported[e.ID] && e.Block.Height+int32(e.Intent.CL) <= height {
 					missing = append(missing, e)
 				}
@@ -219,6 +223,81 @@ func script(seed int64, idx int) {
 			}
 			w.Sim.WithLock(func() { w.Sim.OnRequest = nil })
 			stepLiveness("append-while-confirming")
+			continue
+		}
+		if mainnet && rng.Intn(5) == 0 {
+			// the wall-clock floor of a mainnet transfer (205 block intervals) ends a few seconds from now, while the chain races
+			// ahead: the block is hundreds of blocks deep long before the message may be forwarded - and it must still be
+			// forwarded once the floor has passed
+			floorIn := int64(2500 + rng.Intn(1500))
+			var ev *alphsim.Ev
+			w.Sim.Mutate("emit-near-time-floor", func(s *alphsim.Sim) {
+				b := w.NewBlockAt(s, time.Now().UnixMilli()-205*16000+floorIn)
+				n := len(expected)
+				emitOne(s, b, "good-transfer")
+				ev = expected[n]
+				s.SetHeight(s.Height + 300 + int32(rng.Intn(200)))
+			})
+			floorEnd[ev.ID] = ev.Block.TsMs + 205*16000
+			w.Tr(fmt.Sprintf("emit a transfer whose wall-clock floor ends in %d ms; height +300..500 at once", floorIn))
+			vlib.CCount("transfers_near_time_floor", 1)
+			w.H.WaitRounds(3, 30*time.Second)
+			time.Sleep(time.Duration(floorIn+700) * time.Millisecond)
+			w.Sim.Mutate("advance", func(s *alphsim.Sim) { s.SetHeight(s.Height + 1) })
+			if !w.H.WaitRounds(6, 30*time.Second) {
+				break
+			}
+			stepLiveness("after-time-floor")
+			continue
+		}
+		if rng.Intn(6) == 0 {
+			// what the node says about a token contract changes over time: an attestation-shaped event of a stranger names a
+			// token whose contract does not exist yet (metadata calls fail), then the contract is created and the token bridge
+			// attests it; later its metadata changes and it is attested again. Each genuine attestation must be observed.
+			id := w.ReserveToken()
+			w.Sim.Mutate("foreign-attest-of-missing-token", func(s *alphsim.Sim) {
+				b := w.NewBlock(s, false)
+				in := w.AttestFor(id, "NEW", "New token", 8, uint8(lrng.Intn(2)))
+				lrng.Read(in.Sender[:])
+				s.Emit(s.Core, b, fmt.Sprintf("%064x", lrng.Uint64()), 0, alphsim.FieldsOf(in), in, "foreign-attest-of-not-yet-created-token")
+				hostile = append(hostile, "foreign-attest-of-not-yet-created-token")
+				s.SetHeight(s.Height + 3)
+			})
+			w.Tr("a stranger's attestation-shaped event names a token contract that does not exist yet")
+			if !w.H.WaitRounds(3, 30*time.Second) {
+				break
+			}
+			w.Sim.Mutate("create-token-and-attest", func(s *alphsim.Sim) {
+				w.CreateToken(s, id, "NEW", "New token", 8)
+				b := w.NewBlock(s, false)
+				in := w.AttestFor(id, "NEW", "New token", 8, uint8(lrng.Intn(2)))
+				tx := fmt.Sprintf("%064x", lrng.Uint64())
+				e := s.Emit(s.Core, b, tx, 0, alphsim.FieldsOf(in), in, "good-attest-of-just-created-token")
+				s.TxBlock[tx] = b.Hash
+				expected = append(expected, e)
+				s.SetHeight(s.Height + 3)
+			})
+			w.Tr("the token contract is created and the token bridge attests it")
+			vlib.CCount("token_created_after_foreign_attestation", 1)
+			if !w.H.WaitRounds(3, 30*time.Second) {
+				break
+			}
+			stepLiveness("token-created-later")
+			w.Sim.Mutate("change-metadata-and-attest", func(s *alphsim.Sim) {
+				w.CreateToken(s, id, "NEW2", "New token, renamed", 9)
+				b := w.NewBlock(s, false)
+				in := w.AttestFor(id, "NEW2", "New token, renamed", 9, 0)
+				tx := fmt.Sprintf("%064x", lrng.Uint64())
+				e := s.Emit(s.Core, b, tx, 0, alphsim.FieldsOf(in), in, "good-attest-after-metadata-change")
+				s.TxBlock[tx] = b.Hash
+				expected = append(expected, e)
+				s.SetHeight(s.Height + 3)
+			})
+			w.Tr("the token's metadata changes and it is attested again")
+			if !w.H.WaitRounds(3, 30*time.Second) {
+				break
+			}
+			stepLiveness("re-attested-after-metadata-change")
 			continue
 		}
 		// a batch appended in one block ...
@@ -510,6 +589,6 @@ func main() {
 		r.Inconclusive("no token-bridge message was ever expected")
 	}
 	r.Assume("liveness restated as bounded progress: after the last mutation the simulator keeps answering and within 6 further completed poll rounds every well-formed token-bridge event of a main-chain block whose confirmation conditions hold must have been forwarded exactly once",
-		"all block timestamps are ~100 days old so that no wall-clock floor delays a delivery", "no API faults are injected while messages are pending (only token-metadata calls of attacker-named contracts misbehave); half of the scripts end with one failed current-count request when nothing is pending, i.e. a supervisor restart of the watcher")
+		"block timestamps are ~100 days old so that no wall-clock floor delays a delivery, except in the dedicated mainnet step whose floor ends 2.5-4 s after the emission (judged against the time of arrival)", "no API faults are injected while messages are pending (only token-metadata calls of attacker-named contracts misbehave); half of the scripts end with one failed current-count request when nothing is pending, i.e. a supervisor restart of the watcher")
 	r.Finish("evaluations", "scripts_distinct", "page limits {1,2,3,100}; batches of 1-5 events per block mixing well-formed token-bridge transfers/attestations (incl. target chain 65535, consistency 255, sequence near 2^64, two messages published by one transaction) with foreign-sender events, attestation-shaped events naming contracts whose metadata calls fail or answer oddly in eleven ways (HTTP error, two results, single methods failed, wrong value types, over-long values, a succeeded call with no or with two return values), and twelve kinds of malformed events; 0/1/page/page+1 further events appended between the count answer and the first page answer and before the second page; distinct non-trivial = distinct script traces", 20)
 }
